@@ -4,6 +4,7 @@
   Floats cross the pipe as 16 hex digits of their bit pattern.
 -/
 import Cav.Drv.Quad
+import Cav.Drv.Parse
 
 open Cav Cav.Drv
 
@@ -14,6 +15,12 @@ def step (line : String) : String :=
   | "quad2d" :: rest => drvQuad2d rest
   | "tri" :: rest => drvTri rest
   | "panel" :: rest => drvPanel rest
+  | "parse" :: rest => drvParse rest
+  | "evalf" :: rest => drvEvalF rest
+  | "evalad" :: rest => drvEvalAD rest
+  | "intervals" :: rest => drvIntervals rest
+  | "polygons" :: rest => drvPolygons rest
+  | "ad" :: rest => drvAd rest
   | _ => "bad-request"
 
 partial def loop (h : IO.FS.Stream) (out : IO.FS.Stream) : IO Unit := do
